@@ -250,6 +250,44 @@ fn plain_text(s: &[char]) -> bool {
     s.iter().all(|c| plain_char(*c))
 }
 
+// ---- the class of DOTTED texts of Proofs/C18LexDots.v (phase 4), evaluated with the real predicates
+const BAD2: &[char] = &['@', ':', '[', '\'', '’', '‘', '＇']; // = C18LexDots.bad2 (the period is allowed)
+fn wch(c: char) -> bool {
+    wchar(c) && !c.is_ascii_digit()
+}
+fn char2(c: char) -> bool {
+    !BAD2.contains(&c) && !c.is_ascii_digit() && (wch(c) || ichar(c) || ochar(c))
+}
+fn host_char(c: char) -> bool {
+    c.is_ascii_alphanumeric() || c == '-' || c == '.'
+}
+/// the FC18c pattern [A-Za-z][sS][.-][A-Za-z0-9.-] at position i (C18LexDots.fc18c_here)
+fn fc18c_here(s: &[char], i: usize) -> bool {
+    i + 3 < s.len() && s[i].is_ascii_alphabetic() && matches!(s[i + 1], 's' | 'S') && matches!(s[i + 2], '.' | '-') && host_char(s[i + 3])
+}
+fn ctx_ok(s: &[char]) -> bool {
+    (0..s.len()).all(|i| !fc18c_here(s, i))
+}
+fn dotted_text(s: &[char]) -> bool {
+    s.iter().all(|c| char2(*c)) && ctx_ok(s)
+}
+/// ickey of Proofs/C18PassesIC.v: the ASCII lower-case letter of an ASCII letter, 0 for any other character
+fn ickey(c: char) -> u32 {
+    if c.is_ascii_alphabetic() { c.to_ascii_lowercase() as u32 } else { 0 }
+}
+/// spans and kinds of a token list (no metadata)
+fn lex_shape(toks: &[Token]) -> Vec<(usize, usize, u32)> {
+    toks.iter().map(|t| (t.span.start, t.span.end, kind_code(&t.kind))).collect()
+}
+/// a Parser that answers a fixed token list whatever the text: Document::new_from_vec(text', FixedTokens(t0), dict)
+/// runs the passes of Document::parse on t0 with ANOTHER text (C18_passes_case_blind quantifies over any token list)
+struct FixedTokens(Vec<Token>);
+impl Parser for FixedTokens {
+    fn parse(&self, _source: &[char]) -> Vec<Token> {
+        self.0.clone()
+    }
+}
+
 /// "STR | src | chars | canon | meta": like case_line, but the dictionary facts are keyed by the words of the
 /// REAL token list (raw text for the metadata the document attaches, lower-cased text for
 /// should_capitalize_token); the model asks for the facts of ITS tokens and answers "?" when one is missing
@@ -318,6 +356,8 @@ struct World {
     e2e_counter: std::cell::Cell<u64>,
     /// characters of the plain class that are not case-stable (computed from all code points at start-up)
     unstable: std::collections::HashSet<char>,
+    /// characters of the dotted class (C18LexDots.char2) that are not case-stable in the sense of case_stable2
+    unstable2: std::collections::HashSet<char>,
 }
 
 /// in bounds, ordered, disjoint, word-like tokens non-empty, and the tokens tile the text
@@ -421,6 +461,38 @@ fn check_text(rep: &mut Report, world: &World, text: &str, origin: &str, r: Opti
         // the model's own tokenisation + metadata vs Document::new_from_vec(.., PlainEnglish, dict)
         rep.case(&tok_case_line(&toks, &src, dict), &tok_impl_line(&toks));
         rep.count("corr:document_tokens");
+        // the classes of the theorems as the harness evaluates them vs the extracted Coq definitions
+        // (C18LexStable.plain_text, C18LexDots.dotted_text) on the dumped Unicode tables
+        rep.case(&format!("CLS | {}", cps(&src)), &format!("C {} {}", plain_text(&src) as u8, dotted_text(&src) as u8));
+        rep.count("corr:classes");
+    }
+    // ---- C18_passes_case_blind on the implementation: the passes of Document::parse on the lexer's token list of
+    // this text, run with an ASCII-case-scrambled text (all upper / alternating), give the same spans and kinds
+    if src.iter().any(|c| c.is_ascii_alphabetic()) {
+        let t0 = guarded(|| PlainEnglish.parse(&src));
+        if let Ok(t0) = t0 {
+            let upper: Vec<char> = src.iter().map(|c| c.to_ascii_uppercase()).collect();
+            let alt: Vec<char> = src.iter().enumerate().map(|(i, c)| if i % 2 == 0 { c.to_ascii_uppercase() } else { c.to_ascii_lowercase() }).collect();
+            for (name, s2) in [("upper", upper), ("alternating", alt)] {
+                if s2 == src {
+                    continue;
+                }
+                rep.monitor("passes_case_blind:checked", 1);
+                let d2 = guarded(|| Document::new_from_vec(Lrc::new(s2.clone()), &FixedTokens(t0.clone()), dict));
+                match d2 {
+                    Ok(d2) => {
+                        if lex_shape(d2.get_tokens()) != lex_shape(&toks) {
+                            rep.monitor("passes_case_blind:violated", 1);
+                            rep.fail("passes_blind", format!("the passes of Document::parse give different tokens on the lexer's token list when the text is ASCII-case-scrambled ({name}): {:?}", s2.to_string()), inp.clone());
+                        }
+                    }
+                    Err(m) => {
+                        rep.monitor("passes_case_blind:violated", 1);
+                        rep.fail("passes_blind", format!("the passes panic on the ASCII-case-scrambled text ({name}) but not on the text: {m}"), inp.clone());
+                    }
+                }
+            }
+        }
     }
     if let Some(r) = r {
         if toks.len() >= 2 {
@@ -451,6 +523,18 @@ fn check_text(rep: &mut Report, world: &World, text: &str, origin: &str, r: Opti
     // the class of C18_str_relex_plain / C18_str_idempotent_plain: plain_stable_text
     let is_plain = plain_text(&src) && !src.iter().any(|c| world.unstable.contains(c));
     rep.count(if is_plain { "plain_stable_text(C18_str_idempotent_plain applies):yes" } else { "plain_stable_text(C18_str_idempotent_plain applies):no" });
+    // the class of C18_str_relex_dotted / C18_str_idempotent_dotted: dotted_stable_text
+    let is_dotted = dotted_text(&src) && !src.iter().any(|c| world.unstable2.contains(c));
+    rep.count(match (is_plain, is_dotted) {
+        (true, true) => "class:plain_and_dotted",
+        (true, false) => "class:plain_only(has [A-Za-z][sS]-[host])",
+        (false, true) => "class:dotted_only(has a period)",
+        (false, false) => "class:neither(idempotence is oracle-only)",
+    });
+    if !is_plain && !is_dotted {
+        let why = if src.iter().any(|c| c.is_ascii_digit()) { "digit" } else if src.iter().any(|c| BAD2.contains(c)) { "apostrophe_at_colon_bracket" } else if !ctx_ok(&src) { "fc18c_pattern" } else { "other_character" };
+        rep.count(&format!("class:neither:{why}"));
+    }
     let out = match out {
         Ok(o) => o,
         Err(m) => {
@@ -548,6 +632,34 @@ fn check_text(rep: &mut Report, world: &World, text: &str, origin: &str, r: Opti
             if !plain_text(&outc) {
                 rep.monitor("H_relex_plain:violated", 1);
                 rep.fail("plain_relex", "the title case of a plain text is not a plain text (C18_str_relex_plain says it is)".into(), inp.clone());
+            }
+        }
+        if is_dotted {
+            rep.monitor("H_relex_dotted:checked", 1);
+            if !dotted_text(&outc) {
+                rep.monitor("H_relex_dotted:violated", 1);
+                rep.fail("dotted_relex", "the title case of a dotted text is not a dotted text (C18_str_relex_dotted says it is)".into(), inp.clone());
+            }
+            if shape(toks2) != shape(&toks) {
+                rep.monitor("H_relex_dotted:violated", 1);
+                rep.fail("dotted_relex", format!("a DOTTED text re-lexes differently after title-casing: {:?} -> {:?}", text, out), inp.clone());
+            }
+        }
+        // H_relex_lex (residue of C18_str_idempotent_lexer_partial): the LEXER ALONE cuts the output like the text;
+        // C18_str_relex_of_lexer: then the document tokens are the same
+        let (l1, l2) = (guarded(|| PlainEnglish.parse(&src)), guarded(|| PlainEnglish.parse(&outc)));
+        if let (Ok(l1), Ok(l2)) = (l1, l2) {
+            rep.monitor("H_relex_lex:checked", 1);
+            if lex_shape(&l1) == lex_shape(&l2) {
+                if shape(toks2) != shape(&toks) {
+                    rep.monitor("relex_of_lexer:violated", 1);
+                    rep.fail("relex_of_lexer", format!("the lexer cuts {:?} and its title case {:?} alike but the document tokens differ (C18_str_relex_of_lexer says they do not)", text, out), inp.clone());
+                }
+            } else {
+                rep.monitor("H_relex_lex:violated", 1);
+                if is_plain || is_dotted {
+                    rep.fail("dotted_relex", format!("the lexer cuts a text of the proved classes and its title case differently: {:?} -> {:?}", text, out), inp.clone());
+                }
             }
         }
         if shape(toks2) != shape(&toks) {
@@ -1028,7 +1140,7 @@ fn sweep_chars(rep: &mut Report) {
 /// (a, c) of distinct members with a in the plain class ask: both word characters, or both characters no sub-lexer
 /// claims, and c in the plain class?  The characters a for which some pair fails are NOT case-stable: they are
 /// outside the class of C18_str_idempotent_plain (plain_stable_text); returned, and listed in the report.
-fn unstable_chars(rep: &mut Report) -> std::collections::HashSet<char> {
+fn unstable_chars(rep: &mut Report) -> (std::collections::HashSet<char>, std::collections::HashSet<char>) {
     use std::collections::HashMap;
     let mut groups: HashMap<(Vec<char>, Vec<char>), Vec<char>> = HashMap::new();
     for cp in 0..0x110000u32 {
@@ -1036,11 +1148,37 @@ fn unstable_chars(rep: &mut Report) -> std::collections::HashSet<char> {
         groups.entry((c.to_lowercase().collect(), c.to_uppercase().collect())).or_default().push(c);
     }
     let mut bad = std::collections::BTreeSet::new();
+    let mut bad2 = std::collections::BTreeSet::new();
+    let mut detail: Vec<String> = vec![];
+    let class_of = |c: char| if wchar(c) { "word character" } else if ochar(c) { "unclaimed character" } else if ichar(c) { "blank/punctuation" } else { "other" };
     for g in groups.values() {
         if g.len() < 2 {
             continue;
         }
         rep.monitor("case_stable:groups_with_variants", 1);
+        // ascii_case_faithful (premise of C18_str_relex_of_lexer and the dotted theorems): case variants have the
+        // same ASCII-letter key; and case_stable2 for the dotted class
+        for &a in g {
+            for &c in g {
+                if c == a {
+                    continue;
+                }
+                rep.monitor("ascii_case_faithful:pairs_checked", 1);
+                if ickey(a) != ickey(c) {
+                    rep.monitor("ascii_case_faithful:violated", 1);
+                    rep.fail("ascii_case_faithful", format!("U+{:04X} and U+{:04X} are case variants with different ASCII-letter keys", a as u32, c as u32), json!({"kind": "text", "text": a.to_string()}));
+                }
+                if char2(a) {
+                    let ok = char2(c) && ((wch(a) && wch(c)) || (ochar(a) && ochar(c)));
+                    if !ok {
+                        bad2.insert(a);
+                    }
+                }
+                if plain_char(a) && !(plain_char(c) && ((wchar(a) && wchar(c)) || (ochar(a) && ochar(c)))) {
+                    detail.push(format!("U+{:04X} ({}, lingual={}, alphabetic={}) has the case variant U+{:04X} ({}, lingual={}, alphabetic={})", a as u32, class_of(a), observed_lingual(a), a.is_alphabetic(), c as u32, class_of(c), observed_lingual(c), c.is_alphabetic()));
+                }
+            }
+        }
         for &a in g {
             if !plain_char(a) {
                 continue;
@@ -1059,7 +1197,16 @@ fn unstable_chars(rep: &mut Report) -> std::collections::HashSet<char> {
     }
     rep.monitor("case_stable:plain_characters_that_are_not_case_stable", bad.len() as u64);
     rep.extra.insert("plain_characters_not_case_stable".into(), json!(bad.iter().map(|c| format!("U+{:04X}", *c as u32)).collect::<Vec<_>>()));
-    bad.into_iter().collect()
+    rep.monitor("case_stable2:dotted_characters_that_are_not_case_stable", bad2.len() as u64);
+    rep.extra.insert("dotted_characters_not_case_stable".into(), json!(bad2.iter().map(|c| format!("U+{:04X}", *c as u32)).collect::<Vec<_>>()));
+    detail.sort();
+    rep.extra.insert("not_case_stable_pairs".into(), json!(detail));
+    // the exceptions are pinned: a change of the crates' Unicode data that adds or removes one is reported
+    let expected: Vec<char> = vec!['\u{A7D2}', '\u{A7D3}', '\u{A7D4}', '\u{A7D5}'];
+    if bad.iter().copied().collect::<Vec<char>>() != expected || bad2.iter().copied().collect::<Vec<char>>() != expected {
+        rep.count("case_stable:exception_set_changed(was U+A7D2..U+A7D5)");
+    }
+    (bad.into_iter().collect(), bad2.into_iter().collect())
 }
 
 /// titles aimed at the case-sensitive corners of the lexer (lex_plural_digit's lower-case `s`, `0x`, the decade
@@ -1104,14 +1251,47 @@ fn relex_title(r: &mut Rng, v: &Vocab) -> String {
     out
 }
 
+/// titles for the DOTTED class of C18LexDots.v (phase 4): words glued by periods — hostnames, sentence ends,
+/// initialisms, ellipses, Latin abbreviations, hyphens — without digits, apostrophes, @ : [ ; most of them avoid the
+/// FC18c pattern, so C18_str_idempotent_dotted applies and the oracle dotted_relex is exercised
+fn dotted_title(r: &mut Rng, v: &Vocab) -> String {
+    const GLUE: &[&str] = &[".", ".", ". ", ". ", "...", " etc. ", " et al. ", " vs. ", ".com ", " e.g. ", " N.S.A. ", "-", " - ", ", ", " ", " ", ".-", "..", " i.e. ", ".Ɑ", ".é"];
+    let n = r.range(2, 6);
+    let mut out = String::new();
+    for i in 0..n {
+        if i > 0 {
+            out.push_str(r.s(GLUE));
+        }
+        let w = match r.below(7) {
+            0 | 1 => r.s(SPECIAL).to_string(),
+            2 => r.pick(&v.proper).clone(),
+            3 => r.pick(&v.any).clone(),
+            4 => r.s(&["us", "as", "is", "it", "a", "i", "b", "x", "www", "org", "etc", "ETC", "Et", "AL", "vs", "é", "Ünï", "ΑΒ"]).to_string(),
+            5 => r.pick(&v.proper_lower_initial).clone(),
+            _ => r.pick(&v.prep_det).clone(),
+        };
+        let w: String = w.chars().filter(|c| !c.is_ascii_digit() && !BAD2.contains(c)).collect();
+        out.push_str(&match r.below(4) {
+            0 => w.to_uppercase(),
+            1 => w.to_lowercase(),
+            2 => gen::capitalize(&w.to_lowercase()),
+            _ => w,
+        });
+    }
+    if r.chance(1, 2) {
+        out.push('.');
+    }
+    out
+}
+
 fn main() {
     let (a, corpus) = hv::cli();
     let mut rep = Report::new(&a.out);
     rep.rule = "titles: corpus; generated titles (common words, special lower-case words at first/middle/last position, proper nouns from the curated dictionary in every casing and with curly apostrophes, numbers, hyphenated, non-ASCII incl. Kelvin/Angstrom signs, long s, dotted capital I, punctuation, leading/trailing whitespace, empty); shared document generator; Markdown front-end (correspondence + hull length only); synthetic token lists over synthetic dictionaries (correspondence only); thorough adds every curated dictionary word in 5 casings alone and in mid-title position. non-trivial = distinct title with >= 2 word-like tokens and >= 1 changed character".into();
     // the Unicode tables of the lexer model, before any end-to-end case (corpus and replays included)
     dump_unicode(&mut rep);
-    let unstable = unstable_chars(&mut rep);
-    let world = World { dict: FstDictionary::curated(), e2e_sample: 16, e2e_counter: std::cell::Cell::new(0), unstable };
+    let (unstable, unstable2) = unstable_chars(&mut rep);
+    let world = World { dict: FstDictionary::curated(), e2e_sample: 16, e2e_counter: std::cell::Cell::new(0), unstable, unstable2 };
     for c in &corpus {
         replay_input(&mut rep, &world, c);
     }
@@ -1142,6 +1322,10 @@ fn main() {
     for _ in 0..a.scale(1500, 30000) {
         let t = relex_title(&mut r, &vocab);
         check_text(&mut rep, &world, &t, "relex", None);
+    }
+    for _ in 0..a.scale(1500, 30000) {
+        let t = dotted_title(&mut r, &vocab);
+        check_text(&mut rep, &world, &t, "dotted", None);
     }
     for _ in 0..a.scale(500, 6000) {
         let t = gen::any_text(&mut r);
